@@ -1,7 +1,7 @@
 """C20 - unsigned byte fields keep value, width and big-endian octets coherent; conversion helpers."""
 from __future__ import annotations
 
-from spverif.core.util import attempt, exc_sig, pool_uint, rand_uint
+from spverif.core.util import attempt, exc_sig, pool_uint, rand_uint, hist_len
 
 THOROUGH_SCALE = 8
 ID = "C20"
@@ -142,7 +142,7 @@ def k_assign_history(ctx, w, seed):
     v = rand_uint(r, 8 * w)
     f = U.UnsignedByteField(v, w)
     ops = []
-    for step in range(r.randrange(2, 8)):
+    for step in range(hist_len(r, 2, 8)):
         op = r.choice(("hash", "dict", "assign_int", "assign_bytes", "assign_bytearray_long", "assign_bytearray_exact", "refused_int", "refused_bytes", "eq"))
         ops.append(op)
         if op == "hash":
